@@ -84,6 +84,11 @@ func (i InvoiceType) String() string {
 
 // SwapData holds all the data needed for a swap
 type SwapData struct {
+	// Id is the id the swap was created with. It identifies the swap also
+	// when no request or agreement has been stored (e.g. when the request was
+	// invalid and is answered with a cancel message).
+	Id *SwapId `json:"id,omitempty"`
+
 	// Swap In
 	SwapInRequest   *SwapInRequestMessage   `json:"swap_in_request"`
 	SwapInAgreement *SwapInAgreementMessage `json:"swap_in_agreement"`
@@ -148,7 +153,7 @@ func (s *SwapData) GetId() *SwapId {
 	if s.SwapOutAgreement != nil {
 		return s.SwapOutAgreement.SwapId
 	}
-	return nil
+	return s.Id
 }
 
 func (s *SwapData) GetProtocolVersion() uint8 {
@@ -405,6 +410,7 @@ func (s *SwapData) GetPrivkey() *btcec.PrivateKey {
 // NewSwapData returns a new swap with a random hex id and the given arguments
 func NewSwapData(swapId *SwapId, initiatorNodeId string, peerNodeId string) *SwapData {
 	return &SwapData{
+		Id:              swapId,
 		PeerNodeId:      peerNodeId,
 		InitiatorNodeId: initiatorNodeId,
 		PrivkeyBytes:    getRandomPrivkey().Serialize(),
@@ -416,6 +422,7 @@ func NewSwapData(swapId *SwapId, initiatorNodeId string, peerNodeId string) *Swa
 // NewSwapDataFromRequest returns a new swap created from a swap request
 func NewSwapDataFromRequest(swapId *SwapId, senderNodeId string) *SwapData {
 	return &SwapData{
+		Id:              swapId,
 		PeerNodeId:      senderNodeId,
 		InitiatorNodeId: senderNodeId,
 		CreatedAt:       time.Now().Unix(),
